@@ -57,9 +57,16 @@ def check_span_span(a, b):
         if inter is not None:
             out.append(("and-disjoint", f"got {inter}, expected None"))
     else:
-        boundary = True  # touching / empty overlap: None or the empty span both fine
+        boundary = True  # touching / empty overlap: None or the empty span both fine ...
         if inter is not None and (_pos(inter.start), _pos(inter.end)) != (lo, hi):
             out.append(("and-touching", f"got {inter}, expected None or empty {lo}..{hi}"))
+        # ... but the intersection is a function of the unordered pair: both operand orders must agree
+        try:
+            rev = b & a
+        except Exception as e:  # noqa: BLE001
+            rev = e
+        if (inter is None) != (rev is None):
+            out.append(("and-touching-not-symmetric", f"a & b = {inter} but b & a = {rev}"))
     return out, boundary
 
 
